@@ -71,7 +71,7 @@ func VC05Data() {
 // VC05Str: string operands byte for byte, separators inside strings stay
 // data; three of the bytes are solver variables.
 func VC05Str() {
-	layout := vrt.ChooseStr("layout", []string{"str", "num,str", "str,num", "str,str", "num,str,num", "utf8-2", "utf8-3"})
+	layout := vrt.ChooseStr("layout", []string{"str", "num,str", "str,num", "str,str", "num,str,num", "utf8-2", "utf8-3", "empty", "empty,empty"})
 	// printable ASCII except '"' and '\\', in three interval classes
 	cls := [][2]byte{{0x20, 0x21}, {0x23, 0x5b}, {0x5d, 0x7e}}
 	mk := func(name string) byte {
@@ -99,6 +99,10 @@ func VC05Str() {
 	case "num,str,num":
 		text = "1," + q(s2) + ",10"
 		want = append(append(append(want, 1), s2...), 10)
+	case "empty":
+		text = "\"\""
+	case "empty,empty":
+		text = "\"\",\"\""
 	case "utf8-2":
 		// a two-byte UTF-8 character with both bytes solver variables (what
 		// the command line hands over for a non-ASCII string): DB emits the
@@ -244,7 +248,7 @@ func VC05Label() {
 	layout := vrt.ChooseStr("layout", []string{"lbl", "7,lbl,9", "lbl,lbl2"})
 	org := vrt.IntRange("org", 0, 1<<24)
 	var sb subs
-	src := "ORG " + lit(org, &sb) + "\nDB 1,2,3,4\nlbl:\nDB 5\nlbl2:\n" + dir + " " + layout + "\n"
+	src := "ORG " + lit(org, &sb) + "\nDB 1,2,3,4\nlbl:\nDB 5\nlbl2:\n" + dir + " " + layout + "\nend:\nDW end\n"
 	vrt.Note("src", src)
 	out, oc := AssembleT(src, sb.list, "s")
 	vrt.Note("outcome", oc)
@@ -264,11 +268,15 @@ func VC05Label() {
 		want = []int64{org + 4, org + 5}
 	}
 	var acc diffAcc
-	acc.flag(len(out) != 5+len(want)*width)
-	if len(out) == 5+len(want)*width {
+	n := 5 + len(want)*width
+	acc.flag(len(out) != n+2)
+	if len(out) == n+2 {
 		for i, w := range want {
 			acc.eqLE(out[5+i*width:5+(i+1)*width], w)
 		}
+		// the label behind the directive: the location counter advanced by
+		// exactly the bytes emitted
+		acc.eqLE(out[n:], org+int64(n))
 	}
 	vrt.Assert(acc.d == 0, "c05.label")
 }
